@@ -33,7 +33,7 @@ CHECKS = {
  "C19": dict(tech=SWEEP, text="All 27 property kinds x {publish, subscribe, unsubscribe, disconnect, will} with boundary values in several session states, empty filter lists, dead handle, and Maximum QoS x requested QoS x downgrade; expectation table transcribed from MQTT 5; a refused request must offer zero bytes and leave quiescence, quota and handle status unchanged."),
  "C20": dict(tech=SWEEP, text="Response topics and correlation data over boundary lengths and byte values, at every position among other properties, with user properties added after reply(), and owned capacities around the actual sizes; the reply is published through the real client and decoded by the reference decoder."),
 }
-BUILT = ["C01", "C02", "C03", "C04", "C05", "C06", "C07", "C08", "C09", "C11", "C12", "C13", "C14", "C15", "C16", "C17", "C18", "C19", "C20"]
+BUILT = ["C01", "C02", "C03", "C04", "C05", "C06", "C07", "C08", "C09", "C10", "C11", "C12", "C13", "C14", "C15", "C16", "C17", "C18", "C19", "C20"]
 NOT_YET = "check not built yet in this revision of /verif (work in progress; DESIGN.md describes the planned check)"
 CATEGORY = "model_checking"
 
